@@ -159,6 +159,8 @@ type World struct {
 	FleetErrors    bool // CreateFleet answers with errors and no instances
 	// ReadyStagger: every other fleet instance becomes ready one poll later than ReadyFromPoll.
 	ReadyStagger bool
+	// ReadyHalfNever: fleet instances with an odd sequence number never become ready.
+	ReadyHalfNever bool
 	polls          int
 
 	seqInst int
